@@ -7,13 +7,16 @@ SPEC = {
     "suites": [
         Suite(name="parse", harness="vh_parse", runner="parse",
               model_deps=["theories/Model/Layout.vo", "theories/Model/Parse.vo"],
-              quick_n=700, thorough_n=12000, timeout=3000,
+              quick_n=700, thorough_n=8000, timeout=3000,
               rule="inputs: files written by the real library (0..300 counters, names 1..4096 bytes incl. NUL/newline/UTF-8/"
                    "stack shapes, twin names) 12%; files of an independent encoder (several policies) 12%; structured "
                    "mutations of both (header length incl. values that put the table at the end of the input, limit, bucket "
                    "heads, record length, next links incl. self-cycle / 2-cycle / into header / past EOF / off a record by 4, by odd amounts, by 8, "
                    "truncation at 32-byte boundaries, prefix, metadata, extension, bit flips; one or two per file) 50%; "
-                   "hand-made regression inputs (header length < 32, cycles through compressed stack names, long chains, "
+                   "2 (thorough: 8) inputs of about 7.3 MiB whose bucket head or next link is 0xfffffff8 / within 32 bytes of "
+                   "2^32 (long enough that a reader with wrapping uint32 offsets finds a record at the wrapped offset); library "
+                   "and encoder files with pairs of different names of one 32-bit FNV-1a value (birthday search in the "
+                   "generator); hand-made regression inputs (header length < 32, cycles through compressed stack names, long chains, "
                    "records ending at EOF, record offsets of every alignment, duplicate raw names; a quarter of them: inputs whose "
                    "length is not a multiple of 32 with a complete linked record in the partial unit after the last full one) 14%; random bytes 12%. Real Parse under "
                    "a watchdog (panic recovered, 3 s limit), run twice with different bytes after the input. Plus (3%) "
